@@ -20,6 +20,27 @@ import (
 
 const Root = "/verif"
 
+// OutRoot is where evidence/ and replays/ are written: /verif, or $VERIF_OUT when a
+// scratch worktree is being checked (so that /verif/evidence always describes /repo).
+func OutRoot() string {
+	if Repo() != "/repo" {
+		if o := os.Getenv("VERIF_OUT"); o != "" {
+			return o
+		}
+		return "/dev/shm/verif-alt-out"
+	}
+	return Root
+}
+
+// Repo is the wuffs tree under check: /repo, or $VERIF_REPO (a scratch worktree
+// holding a candidate change; run.sh points the go.mod replace at it too).
+func Repo() string {
+	if r := os.Getenv("VERIF_REPO"); r != "" {
+		return r
+	}
+	return "/repo"
+}
+
 type Finding struct {
 	Property  string `json:"property"`
 	Signature string `json:"signature"`
@@ -172,7 +193,7 @@ func (r *Run) Violation(sig, what string, witness any) {
 	}
 	r.nViol++
 	h := sha1.Sum([]byte(sig))
-	dir := filepath.Join(Root, "replays", r.ID)
+	dir := filepath.Join(OutRoot(), "replays", r.ID)
 	os.MkdirAll(dir, 0o755)
 	path := filepath.Join(dir, hex.EncodeToString(h[:6])+".json")
 	b, _ := json.MarshalIndent(map[string]any{"property": r.ID, "signature": sig, "what": what, "witness": witness}, "", " ")
@@ -284,9 +305,9 @@ func (r *Run) Finish(c Coverage, assumptions []string) {
 	}
 	nv := r.nViol
 	r.mu.Unlock()
-	os.MkdirAll(filepath.Join(Root, "evidence"), 0o755)
+	os.MkdirAll(filepath.Join(OutRoot(), "evidence"), 0o755)
 	b, _ := json.MarshalIndent(out, "", " ")
-	if err := os.WriteFile(filepath.Join(Root, "evidence", r.ID+".json"), append(b, '\n'), 0o644); err != nil {
+	if err := os.WriteFile(filepath.Join(OutRoot(), "evidence", r.ID+".json"), append(b, '\n'), 0o644); err != nil {
 		fmt.Fprintf(os.Stderr, "HARNESS-ERROR: cannot write evidence: %v\n", err)
 		os.Exit(2)
 	}
